@@ -2238,6 +2238,21 @@ func (p *Parser) peekRune() rune {
 	return r
 }
 
+// peekComment reports whether the next runes that would be read by the
+// scanner start a comment ("/*" or "--").
+func (p *Parser) peekComment() bool {
+	ch0 := p.peekRune()
+	if ch0 != '/' && ch0 != '-' {
+		return false
+	}
+	r := p.s.s.r
+	_, _, _ = r.ReadRune()
+	ch1, _, _ := r.ReadRune()
+	_ = r.UnreadRune()
+	_ = r.UnreadRune()
+	return (ch0 == '/' && ch1 == '*') || (ch0 == '-' && ch1 == '-')
+}
+
 func (p *Parser) parseSource(subqueries bool) (Source, error) {
 	m := &Measurement{}
 
@@ -2855,13 +2870,19 @@ func (p *Parser) parseRegex() (*RegexLiteral, error) {
 		return nil, nil
 	}
 
-	nextRune := p.peekRune()
-	if isWhitespace(nextRune) {
-		p.consumeWhitespace()
+	// Skip whitespace and comments in front of a possible regex. Comments are
+	// recognised on the raw runes here because the probe below would
+	// otherwise take the slash of a block comment for the start of a regex.
+	for isWhitespace(p.peekRune()) || p.peekComment() {
+		if tok, _, _ := p.Scan(); tok != WS && tok != COMMENT {
+			// e.g. an unterminated block comment: let the caller report it.
+			p.Unscan()
+			return nil, nil
+		}
 	}
 
 	// If the next character is not a '/', then return nils.
-	nextRune = p.peekRune()
+	nextRune := p.peekRune()
 	if nextRune == '$' {
 		// This might be a bound parameter and it might
 		// resolve to a regex.
